@@ -94,8 +94,12 @@ SimRespond(i, sw, lost) ==
     /\ infl' = [on |-> FALSE, ack |-> 0]
     /\ UNCHANGED <<ninj, ndown, dropped>>
 
-(* a non-200 answer (the usual long-poll timeout): handed through, nothing else changes *)
-SimFail == /\ infl.on
+(* An answer that carries no events -- a non-200 (the usual long-poll timeout) or a 200    *)
+(* whose body is undef -- is handed through; nothing else changes (pending injections wait). *)
+FailKinds == {"502", "undef200"}
+OutFail(kind) == IF kind = "502" THEN [k |-> "fail"] ELSE None
+SimFail(kind) ==
+           /\ infl.on /\ kind \in FailKinds
            /\ infl' = [on |-> FALSE, ack |-> 0]
            /\ UNCHANGED <<queue, cache, regs, seen, nev, sid, vack, got, ninj, ndown, sentOK, dropped, announced>>
 
@@ -115,7 +119,7 @@ Teardown == /\ ndown < MaxDown /\ ndown' = ndown + 1
 
 Next == \/ PollFwd \/ \E lost \in BOOLEAN : PollCached(lost)
         \/ \E i \in 1..6 : \E sw \in SUBSET (1..2) : \E lost \in BOOLEAN : SimRespond(i, sw, lost)
-        \/ SimFail \/ Inject \/ Teardown
+        \/ (\E kind \in FailKinds : SimFail(kind)) \/ Inject \/ Teardown
 Spec == Init /\ [][Next]_vars
 
 (***************************** the property ********************************)
